@@ -77,3 +77,13 @@ def _lazy_single_index(viol, scenario):
             and (d.get("op") or {}).get("op") == "item"
             and str(d.get("lazy_result", "")).strip('"') == "Raised:TypeError"
             and not str(d.get("eager_result", "")).strip('"').startswith("Raised"))
+
+
+@predicate("bam_eager_write_unsupported")
+def _bam_eager_write(viol, scenario):
+    """KF-C05-bam-eager-write-unsupported: an eagerly read BAM table cannot be written (BamBuffer has no from_data and the
+    eager table carries no header context: KeyError 'header'), the lazily read twin writes fine."""
+    d = viol.detail
+    return (viol.oracle == "twin" and viol.kind == "bam.write.one_fails" and scenario.get("kind") == "bam"
+            and str(d.get("eager_result", "")).strip('"').startswith("Raised")
+            and not str(d.get("lazy_result", "")).strip('"').startswith("Raised"))
